@@ -625,7 +625,11 @@ def genImplCase (fam : String) (seed idx : Nat) : Case := runGen seed idx do
   let op ← pick BinOp.all
   let baseAssign ← chance 1 4
   let generic ← chance 1 3
-  let x : Ty := if generic then Ty.app "X" [tyT] else Ty.simple "X"
+  -- a const parameter of the impl (in the self type), now and then spelled as a raw identifier
+  let withN ← chance 1 6
+  let nName ← pickW [(3, "N"), (1, "r#const")]
+  let nArg : List GArg := if withN then [.ty (Ty.simple nName)] else []
+  let x : Ty := if generic then .path false [.mk "X" (.ty tyT :: nArg)] else (if withN then .path false [.mk "X" nArg] else Ty.simple "X")
   let selfTy ← pickW [(5, x), (4, Ty.ref none false x), (1, .ref (some "'a") false x), (1, .ref none true x),
                       (1, .paren x), (1, .tuple [x, Ty.simple "u8"]),
                       -- trait objects as self type: with several bounds `&Self` has to be spelled `&(dyn A + B)`
@@ -690,6 +694,7 @@ def genImplCase (fam : String) (seed idx : Nat) : Case := runGen seed idx do
   let tb ← if ← chance 1 8 then (do pure [TBound.trait false [] (.path false [.mk "Conv" [.ty (← genComposedSelf)]])]) else pure tb
   let ps : List GParam := (if generic then [.ty "T" tb none] else []) ++
     (match selfTy with | .ref (some _) _ _ => [.lt "'a" []] | _ => [])
+  let ps := ps ++ (if withN then [.const_ nName (Ty.simple "usize") none] else [])
   let ps := ps.filter (·.isLt) ++ ps.filter (!·.isLt)
   let wh := if generic then wh else wh.filter fun | .ty _ (.path false [.mk "T" []]) _ => false | _ => true
   -- requested traits
